@@ -7,6 +7,7 @@ import (
 	"encoding/json"
 	"fmt"
 	"os"
+	"strconv"
 	"strings"
 )
 
@@ -98,16 +99,16 @@ func Assert(c bool, label string) {
 		panic(stopT{"assert-fail"})
 	}
 }
-func Fail(label string)    { Assert(false, label) }
-func Reach(label string)   { reach = append(reach, label) }
-func Event(s string)       { events = append(events, s) }
-func Native() bool         { return true }
-func Steps() int           { return 0 }
-func MapOrderNondet(bool)  {}
-func Concrete(x int) int   { return x }
-func ConcreteBool(b bool) bool { return b }
+func Fail(label string)             { Assert(false, label) }
+func Reach(label string)            { reach = append(reach, label) }
+func Event(s string)                { events = append(events, s) }
+func Native() bool                  { return true }
+func Steps() int                    { return 0 }
+func MapOrderNondet(bool)           {}
+func Concrete(x int) int            { return x }
+func ConcreteBool(b bool) bool      { return b }
 func ConcreteBytes(b []byte) []byte { return append([]byte{}, b...) }
-func IsSymbolic(int) bool  { return false }
+func IsSymbolic(int) bool           { return false }
 func Replace(name string, fn any) {
 	mismatch = "verifrt.Replace(" + name + ") cannot be honoured natively"
 	panic(stopT{"replace-unsupported"})
@@ -119,11 +120,11 @@ func Ite(c bool, x, y int) int {
 	}
 	return y
 }
-func And(a, b bool) bool     { return a && b }
-func Or(a, b bool) bool      { return a || b }
-func Implies(a, b bool) bool { return !a || b }
-func BytesEq(a, b []byte) bool { return string(a) == string(b) }
-func StrEq(a, b string) bool { return a == b }
+func And(a, b bool) bool            { return a && b }
+func Or(a, b bool) bool             { return a || b }
+func Implies(a, b bool) bool        { return !a || b }
+func BytesEq(a, b []byte) bool      { return string(a) == string(b) }
+func StrEq(a, b string) bool        { return a == b }
 func PanicValueString(v any) string { return fmt.Sprint(v) }
 func Param(name string, def int) int {
 	if v, ok := cur.Params[name]; ok {
@@ -154,27 +155,48 @@ func RunNative(harnesses map[string]func()) {
 		if f == "" {
 			continue
 		}
-		runOne(f, harnesses)
+		// VERIF_REPLAY_REPEAT=n: counterexamples that depend on Go's randomised map iteration
+		// order are re-run up to n times in this process, until one run does not end "ok"
+		n := 1
+		if v, err := strconv.Atoi(os.Getenv("VERIF_REPLAY_REPEAT")); err == nil && v > 1 {
+			n = v
+		}
+		for i := 0; i < n; i++ {
+			quiet = i < n-1
+			if runOne(f, harnesses) != "ok" {
+				break
+			}
+		}
 	}
 }
 
-func runOne(path string, harnesses map[string]func()) {
-	fmt.Printf("VERIF-BEGIN %s\n", path)
-	defer fmt.Printf("VERIF-END %s\n", path)
+var quiet bool
+
+func runOne(path string, harnesses map[string]func()) (res string) {
+	var out strings.Builder
+	defer func() {
+		res = result
+		// a repeated run that ended "ok" is only printed if it is the last one
+		if !(quiet && result == "ok") {
+			fmt.Print(out.String())
+		}
+	}()
+	fmt.Fprintf(&out, "VERIF-BEGIN %s\n", path)
+	defer fmt.Fprintf(&out, "VERIF-END %s\n", path)
 	data, err := os.ReadFile(path)
 	if err != nil {
-		fmt.Printf("VERIF-RESULT error %v\n", err)
+		fmt.Fprintf(&out, "VERIF-RESULT error %v\n", err)
 		return
 	}
 	cur = replayFile{}
 	if err := json.Unmarshal(data, &cur); err != nil {
-		fmt.Printf("VERIF-RESULT error %v\n", err)
+		fmt.Fprintf(&out, "VERIF-RESULT error %v\n", err)
 		return
 	}
 	pos, events, reach, result, mismatch = 0, nil, nil, "", ""
 	h := harnesses[cur.Harness]
 	if h == nil {
-		fmt.Printf("VERIF-RESULT error unknown harness %s\n", cur.Harness)
+		fmt.Fprintf(&out, "VERIF-RESULT error unknown harness %s\n", cur.Harness)
 		return
 	}
 	func() {
@@ -200,16 +222,17 @@ func runOne(path string, harnesses map[string]func()) {
 		}
 	}()
 	for _, e := range events {
-		fmt.Printf("VERIF-EVENT %s\n", e)
+		fmt.Fprintf(&out, "VERIF-EVENT %s\n", e)
 	}
 	for _, e := range reach {
-		fmt.Printf("VERIF-REACH %s\n", e)
+		fmt.Fprintf(&out, "VERIF-REACH %s\n", e)
 	}
-	fmt.Printf("VERIF-CONSUMED %d/%d\n", pos, len(cur.Nondet))
-	fmt.Printf("VERIF-RESULT %s\n", result)
+	fmt.Fprintf(&out, "VERIF-CONSUMED %d/%d\n", pos, len(cur.Nondet))
+	fmt.Fprintf(&out, "VERIF-RESULT %s\n", result)
+	return result
 }
 
-func TraceShared(x any, name string) {}
-func TraceTake() []string          { return nil }
+func TraceShared(x any, name string)     {}
+func TraceTake() []string                { return nil }
 func TraceSharedDeep(x any, name string) {}
 func TraceMark(s string)                 {}
